@@ -87,12 +87,17 @@ impl FileSystem for OverlayFS {
             return Err(VfsErrorKind::FileNotFound.into());
         }
         let mut entries = HashSet::<String>::new();
+        // the first layer that has the entry serves it (and reports its own error if it is not a directory);
+        // below it only directories are merged, a file of the same name there is shadowed
+        let mut shadowed = false;
         for layer in &self.layers {
             let layer_path = layer.join(actual_path)?;
-            if layer_path.exists()? {
-                for path in layer_path.read_dir()? {
-                    entries.insert(path.filename());
-                }
+            if !layer_path.exists()? || (shadowed && !layer_path.is_dir()?) {
+                continue;
+            }
+            shadowed = true;
+            for path in layer_path.read_dir()? {
+                entries.insert(path.filename());
             }
         }
         // remove whiteout entries that have been removed
